@@ -15,7 +15,7 @@ from vmon.util import derive_rng, shash
 
 LEVEL = "exploration"
 MANIFEST = {
-    "text": "Seeded random query DAGs over the public API (chains, shared sub-expressions, multi-input merges/concats/binary ops; numeric, bool, string, categorical, datetime columns with nulls and duplicate keys; 1-7 partitions incl. empty ones, known and unknown divisions) are executed on the real optimizer at every stage (simplified-logical, tuned-logical, physical, simplified-physical, fused), through compute(), with tasks and disk shuffles, and compared with the same query lowered without optimization. A rule monitor wrapped around every class's _simplify_*/_tune_*/_lower records which rules fired under which parent, and in validate mode executes before/after of each firing (post-condition on the real rule).",
+    "text": "Seeded random query DAGs over the public API (chains, shared sub-expressions, multi-input merges/concats/binary ops; numeric, bool, string, categorical, datetime columns with nulls and duplicate keys; 1-7 partitions incl. empty ones, known and unknown divisions) are executed on the real optimizer at every stage (simplified-logical, tuned-logical, physical, simplified-physical, fused), through compute(), with tasks and disk shuffles, and compared with the same query lowered without optimization. A rule monitor wrapped around every class's _simplify_*/_tune_*/_lower records which rules fired under which parent, and in validate mode executes before/after of each firing (post-condition on the real rule). The ~170 targeted collections of the plan audits (division-deriving operators, keyword surface of the front end, every join lowering) are compared optimized-vs-unoptimized at every stage too.",
     "note": "Sampled, not exhaustive: held on the programs generated for the seed. Trusts dask's synchronous scheduler, our comparator and flag bookkeeping (order/index undefined after shuffles, joins, reset_index, tied sorts). A query whose unoptimized lowering itself raises is undecided, not judged.",
     "technique": "runtime monitoring: differential execution of every optimizer stage against the unoptimized lowering + per-rule-firing post-condition monitor (M-rule) attached by reflection to all Expr subclasses",
     "design_ref": "DESIGN.md section 4, C01",
